@@ -51,7 +51,7 @@ def tabStr (t : Tab) (size : Nat) (at_ : Nat → Nat) : String :=
   let r := if t.isStatic then "static" else s!"{t.off}:{t.cnt * size}"
   s!"[{join vals}]@{r}"
 
-def dumpP (v : View) (wrap : Bool) : P String := do
+def dumpP (v : View) : P String := do
   match ← strict (tryFrom v) with
   | .error e => pure ("err " ++ e.name)
   | .ok e =>
@@ -72,20 +72,15 @@ def dumpP (v : View) (wrap : Bool) : P String := do
         let a ← icstr b p.1
         let c ← iexp b p.2
         pure s!"({a},{c})")
-      let ini ← (if wrap then
-          y.iterNameIndicesWrap.mapM (fun o => do
-            match ← strict o with
-            | .ok (p : Out Ref × Nat) => do let a ← icstr b p.1; pure s!"({a},{p.2})"
-            | .error er => pure (ecs er))
-        else
-          y.iterNameIndices.mapM (fun (p : Out Ref × Nat) => do let a ← icstr b p.1; pure s!"({a},{p.2})"))
+      let ini ← y.iterNameIndices.mapM (fun o => do
+        match ← strict o with
+        | .ok (p : Out Ref × Nat) => do let a ← icstr b p.1; pure s!"({a},{p.2})"
+        | .error er => pure (ecs er))
       pure (head ++ s!" by=ok F={tabStr y.fns 4 y.fnAt} N={tabStr y.names 4 y.nameAt} I={tabStr y.idx 2 y.idxAt} sorted={sorted} iter=[{join it ";"}] iter_names=[{join itn ";"}] iter_name_indices=[{join ini ";"}]")
-
-def isWrapKind (k : String) : Bool := k.startsWith "w"
 
 def dumpOp (img : Option Img) (k : String) : String :=
   withView img k fun v =>
-    match dumpP v (isWrapKind k) with
+    match dumpP v with
     | .ok s => s
     | .error s => s
 
